@@ -49,7 +49,8 @@
 (* as negative control: "eager" (tokenise everything first), "depeek"      *)
 (* (the parser looks past '...' before it ends the document), "greedy"     *)
 (* (the reader keeps refilling while an undecoded tail remains), "shadow"  *)
-(* (dispose() is called but does not clear the parser's self-references).  *)
+(* (dispose() is called but does not clear the parser's self-references),   *)
+(* "crjoin" (update_raw() reads on while the chunk ends with a CR).         *)
 (***************************************************************************)
 EXTENDS Naturals, Sequences, FiniteSets, TLC
 HL == INSTANCE Lazy
@@ -60,6 +61,7 @@ CONSTANTS Block,      \* units per full read() (4096 / 16384 in the code)
           MaxTail,    \* longest undecodable tail the decoder can leave (0: one unit per character; 3: UTF-8)
           MaxDocs, MaxSize, MaxGap,
           Modes,      \* subset of {"scan", "parse", "load"}
+          TrackBoundary, \* BOOLEAN: the environment also decides, when a read() returns, whether its last unit is a CR
           Variant
 
 (***************************************************************************)
@@ -74,6 +76,7 @@ VARIABLES mode,
           closed,               \* the stream has ended (read() returned nothing)
           a, t, eofd, need,     \* reader: see above; NUL appended; pending update(length) target
           rst,                  \* reader phase: "detenc" | "run"
+          crs,                  \* offsets (from p) of units already committed to be a CR: the last unit of some read()
           bol,                  \* scanner is at the beginning of a line
           queue, key, sdone, swant,
           gen, cur, dsize, gsize, ends, bad,      \* environment grammar: where we are in the stream, document bookkeeping
@@ -81,9 +84,9 @@ VARIABLES mode,
           api, delivered, raised, disposed,
           selfref,              \* the loader is reachable from itself: parser.state / parser.states hold its bound methods
           hok                   \* H monitor
-vars == <<mode, closed, a, t, eofd, need, rst, bol, queue, key, sdone, swant, gen, cur, dsize, gsize, ends,
+vars == <<mode, closed, a, t, eofd, need, rst, crs, bol, queue, key, sdone, swant, gen, cur, dsize, gsize, ends,
           bad, pst, ev, pwant, api, delivered, raised, disposed, selfref, hok>>
-rdr == <<closed, a, t, eofd, need, rst>>
+rdr == <<closed, a, t, eofd, need, rst, crs>>
 scn == <<bol, queue, key, sdone, swant>>
 env == <<gen, cur, dsize, gsize, bad>>
 prs == <<pst, ev, pwant>>
@@ -105,23 +108,35 @@ Avail(n) == a >= n \/ eofd
 ReaderIdle == rst = "run" /\ need = 0
 AtEnd == eofd /\ a = 0                     \* the scanner is at NUL
 
+\* What sits at a block boundary is a dimension of the environment: with TrackBoundary it decides, when a read() returns,
+\* whether the last unit handed out is a CR (the unit after which forward() must look one unit further); the scanner later
+\* finds a line break there.  reader.py does not look at what it has read (Variant "code"); the negative control "crjoin"
+\* reads on while a chunk ends with a CR ("keep CR LF in one chunk").
+CrChoice == IF TrackBoundary THEN BOOLEAN ELSE {FALSE}
 DetEnc ==                                   \* while not eof and len(raw_buffer) < 2: update_raw()
   /\ Running /\ rst = "detenc"
   /\ IF ~closed /\ t < 2
-     THEN /\ \E k \in 0 .. Block : IF k = 0 THEN closed' = TRUE /\ UNCHANGED t ELSE t' = t + k /\ UNCHANGED closed
+     THEN /\ \E k \in 0 .. Block : IF k = 0 THEN closed' = TRUE /\ UNCHANGED <<t, crs>>
+                                    ELSE /\ t' = t + k /\ UNCHANGED closed
+                                         /\ \E cr \in CrChoice : crs' = IF cr THEN crs \cup {a + t + k - 1} ELSE crs
           /\ UNCHANGED <<rst, need>>
-     ELSE rst' = "run" /\ need' = 1 /\ UNCHANGED <<closed, t>>          \* self.update(1)
+     ELSE rst' = "run" /\ need' = 1 /\ UNCHANGED <<closed, t, crs>>          \* self.update(1)
   /\ UNCHANGED <<mode, selfref, a, eofd, scn, env, ends, prs, top>>
 
 \* one iteration of "while len(buffer) < length": update_raw() unless eof, decode (final = eof), NUL at eof
 Refill ==
   /\ Running /\ rst = "run" /\ need > 0
-  /\ IF a >= need \/ eofd THEN need' = 0 /\ UNCHANGED <<closed, a, t, eofd, raised>>
-     ELSE \E k \in 0 .. Block :
+  /\ IF a >= need \/ eofd THEN need' = 0 /\ UNCHANGED <<closed, a, t, eofd, raised, crs>>
+     ELSE \E k \in 0 .. Block, cr \in CrChoice :
           /\ closed => k = 0                                        \* "if not self.eof: self.update_raw()"
           /\ closed' = (closed \/ k = 0)                            \* an empty read: the end of the stream, and only then
+          /\ cr => k > 0
+          /\ crs' = IF cr THEN crs \cup {a + t + k - 1} ELSE crs
           /\ LET got == t + k IN                                    \* raw_buffer after update_raw()
-             \/ /\ \E t2 \in 0 .. Min(MaxTail, got) :             \* the decoder leaves an incomplete sequence behind
+             \/ /\ Variant = "crjoin" /\ cr                        \* negative control: read on, decode later
+                /\ t' = got /\ UNCHANGED <<a, eofd, need, raised>>
+             \/ /\ ~(Variant = "crjoin" /\ cr)
+                /\ \E t2 \in 0 .. Min(MaxTail, got) :             \* the decoder leaves an incomplete sequence behind
                       /\ (closed' => t2 = 0)
                       /\ t' = t2 /\ a' = a + got - t2
                 /\ eofd' = closed'
@@ -135,7 +150,7 @@ Refill ==
   /\ UNCHANGED <<mode, selfref, rst, scn, env, ends, prs, api, delivered, disposed, hok>>
 
 \* peek / prefix / forward ask for n units: "if pointer+n >= len(buffer): update(n)"
-Ask(n) == need' = n /\ UNCHANGED <<closed, a, t, eofd, rst>>
+Ask(n) == need' = n /\ UNCHANGED <<closed, a, t, eofd, rst, crs>>
 
 (***************************************************************************)
 (* Scanner                                                                 *)
@@ -148,8 +163,9 @@ NeedMore == /\ ~sdone
 ScanActive == Running /\ ReaderIdle /\ swant
 
 \* the scanner moves n units forward
+Shift(n) == {c - n : c \in {x \in crs : x >= n}}
 Advance(n) ==
-  /\ a' = a - n
+  /\ a' = a - n /\ crs' = Shift(n)
   /\ ends' = [j \in DOMAIN ends |-> Min(ends[j] + n, Cap)]
   /\ UNCHANGED <<closed, t, eofd, need, rst>>
 Moved(k, n, nl) == IF k.on THEN [k EXCEPT !.dist = Min(@ + n, MaxKey + 1), !.same = (@ /\ ~nl)] ELSE k
@@ -164,11 +180,15 @@ ScanReady ==                                \* need_more_tokens() is false: back
   /\ UNCHANGED <<mode, selfref, rdr, bol, queue, key, sdone, env, ends, prs, top>>
 
 \* the environment decides what the unit at p is; W / NL are consumed by scan_to_next_token (forward needs 2 units)
+\* forward(n) refills so that one unit after the n consumed is buffered: after a CR it must see whether an LF follows
+\* ('\r' and buffer[pointer] != '\n').  ONE unit, whatever it is: that is what keeps a CR at a block boundary harmless.
+LookPast == 1
 CanGrow == IF gen = "afterDE" THEN gsize < MaxGap ELSE dsize < MaxSize
 Skip(u) ==
   /\ ScanActive /\ ~KeyStale /\ NeedMore /\ u \in {"W", "NL"}
-  /\ IF ~Avail(2) THEN Ask(2) /\ UNCHANGED <<bol, key, dsize, gsize, ends>>
+  /\ IF ~Avail(1 + LookPast) THEN Ask(1 + LookPast) /\ UNCHANGED <<bol, key, dsize, gsize, ends>>
      ELSE /\ ~AtEnd /\ CanGrow /\ gen # "end"
+          /\ (0 \in crs) => u = "NL"                             \* a unit announced as CR is a line break
           /\ Advance(1) /\ key' = Moved(key, 1, u = "NL") /\ bol' = (u = "NL")
           /\ IF gen = "afterDE" THEN gsize' = gsize + 1 /\ UNCHANGED dsize ELSE dsize' = dsize + 1 /\ UNCHANGED gsize
   /\ UNCHANGED <<mode, selfref, queue, sdone, swant, gen, cur, bad, prs, top>>
@@ -186,11 +206,11 @@ FetchEnd ==                                 \* NUL: STREAM-END; an open document
 FetchMarker(m) ==                           \* '---' or '...' at the beginning of a line (TermLen units + 1 of look-ahead)
   /\ ScanActive /\ ~KeyStale /\ NeedMore /\ bol /\ m \in {"DS", "DE"}
   /\ IF ~Avail(TermLen + 1) THEN Ask(TermLen + 1) /\ UNCHANGED <<bol, queue, key, gen, cur, dsize, gsize, ends>>
-     ELSE /\ a >= TermLen /\ gen # "end"
+     ELSE /\ a >= TermLen /\ gen # "end" /\ \A j \in 0 .. TermLen - 1 : j \notin crs
           /\ (m = "DE") => gen = "body"                        \* '...' ends an open document
           /\ (m = "DS") => cur < MaxDocs                        \* '---' starts the next one
           /\ Push(Tok(m, gen = "body")) /\ key' = NoKey /\ bol' = FALSE
-          /\ a' = a - TermLen /\ UNCHANGED <<closed, t, eofd, need, rst>>
+          /\ a' = a - TermLen /\ crs' = Shift(TermLen) /\ UNCHANGED <<closed, t, eofd, need, rst>>
           /\ ends' = LET moved == [j \in DOMAIN ends |-> Min(ends[j] + TermLen, Cap)]
                      IN  IF gen = "body" THEN Append(moved, TermLen) ELSE moved
           /\ IF m = "DE" THEN gen' = "afterDE" /\ gsize' = 0 /\ UNCHANGED <<cur, dsize>>
@@ -201,8 +221,8 @@ FetchMarker(m) ==                           \* '---' or '...' at the beginning o
 \* P / C / X are tokens the parser / composer / constructor will reject
 FetchTok(u) ==
   /\ ScanActive /\ ~KeyStale /\ NeedMore /\ u \in {"K", "T", "V", "B", "P", "C", "X"}
-  /\ IF ~Avail(2) THEN Ask(2) /\ UNCHANGED <<bol, queue, key, gen, cur, dsize, raised, bad, ends>>
-     ELSE /\ ~AtEnd
+  /\ IF ~Avail(1 + LookPast) THEN Ask(1 + LookPast) /\ UNCHANGED <<bol, queue, key, gen, cur, dsize, raised, bad, ends>>
+     ELSE /\ ~AtEnd /\ 0 \notin crs
           /\ gen \in {"start", "body"} \/ (gen = "afterDE" /\ u \in {"P", "B"})    \* content after '...' is malformed
           /\ (gen = "start") => cur < MaxDocs
           /\ dsize < MaxSize \/ gen = "afterDE"
@@ -330,7 +350,7 @@ Unwind ==                                  \* an error leaves the generator thro
 
 Init ==
   /\ mode \in Modes
-  /\ closed = FALSE /\ a = 0 /\ t = 0 /\ eofd = FALSE /\ need = 0 /\ rst = "detenc"
+  /\ closed = FALSE /\ a = 0 /\ t = 0 /\ eofd = FALSE /\ need = 0 /\ rst = "detenc" /\ crs = {}
   /\ bol = TRUE /\ queue = <<>> /\ key = NoKey /\ sdone = FALSE /\ swant = FALSE
   /\ gen = "start" /\ cur = 0 /\ dsize = 0 /\ gsize = 0 /\ ends = <<>> /\ bad = FALSE
   /\ pst = "dstart0" /\ ev = NoEv /\ pwant = FALSE
@@ -370,7 +390,8 @@ Referrers == (IF disposed THEN {} ELSE {"generator frame"}) \cup (IF selfref THE
 H_Release == (disposed /\ raised = NoErr) => HL!NothingLeft(Referrers)
 \* beyond the statement (drift probe of the harness): the same holds after every error but a constructor error
 L_ReleaseOnError == (disposed /\ raised.kind \notin {"-", "constructor"}) => HL!NothingLeft(Referrers)
-TypeOK == /\ (a <= 2 * Block + MaxTail + TermLen + 1) \/ Variant = "greedy"
-          /\ t <= 2 * Block + 1 /\ cur <= MaxDocs
+TypeOK == /\ (a <= 2 * Block + MaxTail + TermLen + 1) \/ Variant \in {"greedy", "crjoin"}
+          /\ (t <= 2 * Block + 1) \/ Variant = "crjoin"
+          /\ cur <= MaxDocs
           /\ (Len(queue) <= 4) \/ Variant = "eager"
 =============================================================================
